@@ -72,6 +72,9 @@ pub fn menu() -> Vec<(&'static str, ResourceRecord)> {
         ("SOA of z.t.", rr(&dn("z.t."), soa_data(&dn("mname.z.t."), 9, 60), 60)),
         ("SOA of bank.", rr(&dn("bank."), soa_data(&dn("mname.bank."), 9, 60), 60)),
         ("CNAME cdn.z.t. -> q (closes an alias loop with the on-path CNAME)", rr(&dn("cdn.z.t."), cname(&q), 300)),
+        // off-path owners whose *target* lies on the alias path (converging aliases)
+        ("off-path CNAME other.z.t. -> cdn.z.t. (target on the path)", rr(&dn("other.z.t."), cname(&dn("cdn.z.t.")), 300)),
+        ("off-path CNAME victim.bank. -> q (target is the question name)", rr(&dn("victim.bank."), cname(&q), 300)),
     ]
 }
 
